@@ -61,21 +61,26 @@ def rule_group(ctx):
   repo = ctx.repo
   for cls in ("BiasedBaseCheck", "CheckCr50U2f"):
     b = body(repo, cls)
-    sg = [e for e in b.events if e.kind == "assign" and e.data["name"] == "sigs"]
-    okp = bool(sg)
-    for e in sg:
-      v = as_poly(e.data["value"]).as_atom()
-      good = False
-      if v is not None and v.kind == "map":
-        fa = v.args[2].as_atom()
-        if fa is not None and fa.kind == "filter" and fa.args[0] == b.artifacts:
-          cond = repr(fa.args[1])
-          if "'Eq'" in cond and "'issuer_key_info'),'curve_type')" in cond and "key(ref('ec_util.CURVE_FACTORY')" in cond and v.args[0] == sym.mk("idx", v.args[2], Poly.atom(v.args[1])):
-            good = True
-      okp = okp and good
-    pk = [e for e in b.events if e.kind == "assign" and e.data["name"] == "pks"]
-    okp = okp and bool(pk) and all(as_poly(e.data["value"]) == sym.mk("call", P("lit", ES + ":_MapIssuerSigIndexes"), as_poly(e.state.env.get("sigs"))) for e in pk)
-    ctx.record(R, b.where(), "per-curve partition by issuer_key_info.curve_type", okp, "every supported curve gets the signatures of that curve only" if okp else "partitioning changed")
+    # the sub-batch handed to _MapIssuerSigIndexes: the artifacts whose issuer curve type equals the loop's curve id, and the curve object used in that
+    # pass of the loop is the factory entry of the same id (values, not names)
+    grp = [e for e in b.events if e.kind == "call" and e.data["name"] == "repo:" + ES + ":_MapIssuerSigIndexes" and e.data["args"]]
+    okp = bool(grp)
+    why = "" if grp else "the signatures are not grouped by issuer with _MapIssuerSigIndexes"
+    for e in grp:
+      v = as_poly(e.data["args"][0]).as_atom() if isinstance(e.data["args"][0], Poly) else None
+      K = None
+      if v is not None and v.kind == "map" and len(v.args) == 3 and isinstance(v.args[2], Poly) and v.args[0] == sym.mk("idx", v.args[2], Poly.atom(v.args[1])):
+        K = T.partition_key(v.args[2].as_atom(), b.artifacts)
+      if K is None:
+        okp, why = False, "the grouped sub-batch is not the artifacts filtered by `issuer_key_info.curve_type == <curve id>`"
+        continue
+      if T.partition_key_source(K, b.artifacts) is None:
+        okp, why = False, "the curve id %s does not range over the factory's keys or the batch's curve types: some curve's signatures are never examined" % repr(K)[:80]
+    looks = T.factory_lookups([x for e in b.events for x in ([e.data.get("value")] + list(e.data.get("args", []) if e.kind == "call" else []))])
+    keys = {repr(T.partition_key(a, b.artifacts)) for e in b.events if isinstance(e.data.get("value"), Poly) for a in e.data["value"].all_atoms() if a.kind == "filter" and T.partition_key(a, b.artifacts) is not None}
+    if okp and any(repr(x) not in keys for x in looks):
+      okp, why = False, "the curve object is looked up under another id than the one the signatures are filtered by"
+    ctx.record(R, b.where(), "per-curve partition by issuer_key_info.curve_type", okp, "every supported curve gets the signatures of that curve only" if okp else why)
     # per issuer: unique_vals from that issuer's indices only, ECDSAValues(sigs[idx].ecdsa_sig_info, curve)
     ev = [e for e in b.events if e.kind == "assign" and e.data["name"] == "unique_vals"]
     oki = bool(ev)
